@@ -25,7 +25,7 @@ from ..util import digest, short, stream
 
 ID = "C12"
 PRELOAD = ["sqllineage.runner", "sim.props.c12"]
-BUDGET_S = {"quick": 150.0, "thorough": 1500.0}
+BUDGET_S = {"quick": 240.0, "thorough": 1500.0}
 
 ACC_POOL = ["statements", "source_tables", "target_tables", "intermediate_tables", "col_tt", "col_ff", "cyto_table", "cyto_column", "str"]
 PROBE_TABLES = UNIVERSE + sorted(BASE_META)
@@ -420,6 +420,8 @@ def run_one(spec: dict) -> dict:
             w.probe("corpus_input")
         if run.get("xdialect"):
             w.probe("same_text_tsql_split_then_other_dialect")
+        if run.get("oversized"):
+            w.probe("statement_beyond_splitter_guards")
         fired_at = None
         out = []
         try:
@@ -487,7 +489,10 @@ def run_one(spec: dict) -> dict:
     import sqllineage.core.parser.sqlfluff.analyzer as fluff_analyzer_mod
     import sqllineage.core.parser.sqlparse.analyzer as parse_analyzer_mod
 
-    mods = {"runner": runner_mod, "metadata_provider": mp_mod, "holders": holders_mod, "analyzer": fluff_analyzer_mod, "legacy_analyzer": parse_analyzer_mod}
+    import sqllineage.utils.helpers as helpers_mod
+
+    mods = {"runner": runner_mod, "metadata_provider": mp_mod, "holders": holders_mod, "analyzer": fluff_analyzer_mod, "legacy_analyzer": parse_analyzer_mod,
+            "helpers": helpers_mod}
     want = [mods[m] for m in spec.get("line", [])]
     if _tracer is not None:
         _tracer.uninstall()
@@ -807,7 +812,27 @@ def gen(seed, tier="quick") -> dict:
                 if th_own and g.random() < 0.7:
                     run["provider"] = th_own[0]
                 th["runs"].insert(g.randrange(len(th["runs"]) + 1), run)
-    line_choices = [[], ["runner", "metadata_provider"], ["runner", "metadata_provider"], ["runner", "metadata_provider", "analyzer"], ["analyzer", "legacy_analyzer"]]
+    line_choices = [[], ["runner", "metadata_provider"], ["runner", "metadata_provider"], ["runner", "metadata_provider", "analyzer"], ["analyzer", "legacy_analyzer"],
+                    ["runner", "helpers"]]
+    go = stream(seed, "gen-oversized")
+    if go.random() < 0.12:
+        # a statement beyond the guards of the statement splitter (more than 100 nested parentheses, or more than 10,000
+        # tokens on one level): such a script is refused - in every dialect, alone or in company; the other runs of
+        # the world are ordinary ones. Statement-splitting helpers become yield points in these worlds.
+        line_choices = [["runner", "helpers"], ["helpers"], ["runner", "helpers", "legacy_analyzer"]]
+        for _ in range(go.choice([1, 1, 2])):
+            rid += 1
+            src = go.choice(sorted(BASE_META))
+            c = go.choice(BASE_META[src])
+            if go.random() < 0.7:
+                big = f"INSERT INTO {go.choice(UNIVERSE)} SELECT " + "(" * 104 + c + ")" * 104 + f" AS c_big FROM {src}"
+            else:
+                big = f"INSERT INTO {go.choice(UNIVERSE)} SELECT {c} FROM {src} WHERE {c} IN (" + ", ".join(str(i) for i in range(3400)) + ")"
+            script = [big] if go.random() < 0.5 else [f"INSERT INTO {go.choice(UNIVERSE)} SELECT * FROM {src}", big]
+            run = {"tag": f"big{rid}", "script": script, "dialect": go.choice(["non-validating", "non-validating", "ansi"]), "provider": None, "faults": [], "silent": False,
+                   "accessors": go.sample(ACC_POOL, 2), "oversized": True}
+            th = go.choice(threads)
+            th["runs"].insert(go.randrange(len(th["runs"]) + 1), run)
     if tier == "thorough":
         line_choices.append(["runner", "metadata_provider", "holders"])
     return {
